@@ -1383,7 +1383,7 @@ for _src, _nm in ((1, 'x-forwarded-for'), (2, 'x-real-ip'), (3, 'remote-addr')):
         lambda v: _access_route(v, False))
 for _n in (0, 1, 2):
     harness(PROP, WREQ + '.access_route', name='wsgi_access_route[forwarded,hops=%d]' % _n, setup=_base_setup, inline=ROUTE_INLINE,
-            fix={'route-source': 0, 'hops': _n})(lambda v: _access_route(v, False))
+            fix=dict({'route-source': 0, 'hops': _n}, **({'lower-priority-headers-too': 0} if _n == 2 else {})))(lambda v: _access_route(v, False))
 harness(PROP, WREQ + '.access_route', name='wsgi_access_route_retry', setup=_base_setup, inline=ROUTE_INLINE,
         fix={'route-source': 0, 'lower-priority-headers-too': 0, 'has-REMOTE_ADDR': 0})(lambda v: _access_route(v, True))
 
@@ -1918,7 +1918,7 @@ for _src, _nm in ((1, 'x-forwarded-for'), (2, 'x-real-ip'), (3, 'client')):
         lambda v: _asgi_access_route(v, 'route'))
 for _n in (0, 1, 2):
     harness(PROP, AREQ + '.access_route', name='asgi_access_route[forwarded,hops=%d]' % _n, setup=_base_setup, inline=A_ROUTE_INLINE,
-            fix={'route-source': 0, 'hops': _n})(lambda v: _asgi_access_route(v, 'route'))
+            fix=dict({'route-source': 0, 'hops': _n}, **({'lower-priority-headers-too': 0} if _n == 2 else {})))(lambda v: _asgi_access_route(v, 'route'))
 harness(PROP, AREQ + '.access_route', name='asgi_access_route_retry', setup=_base_setup, inline=A_ROUTE_INLINE,
         fix={'route-source': 0, 'lower-priority-headers-too': 0, 'scope-has-client': 0})(lambda v: _asgi_access_route(v, 'retry'))
 harness(PROP, AREQ + '.access_route', name='asgi_access_route_client_none', setup=_base_setup, inline=A_ROUTE_INLINE,
@@ -1950,9 +1950,306 @@ def asgi_client_accepts(v):
     v.check('quality-consulted-only-when-needed', len(parser.calls) == used)
 
 
-ASSUMPTIONS = []
-NOT_DECIDED = []
-TRUSTED = []
+# ---------------------------------------------------------------------------
+# bounded differential against a tiny independent RFC reader (never counted as proved)
+
+_BOUNDED_SCRIPT = r"""
+import datetime, json, random, re, sys
+import falcon, falcon.asgi
+from falcon import testing
+from falcon.util import ETag, dt_to_http, http_date_to_dt
+
+seed, n = int(sys.argv[1]), int(sys.argv[2])
+rnd = random.Random(seed)
+fails, cases = {}, {}
+
+
+def record(name, ok, inp):
+    cases[name] = cases.get(name, 0) + 1
+    if not ok and len(fails.setdefault(name, [])) < 5:
+        fails[name].append(inp)
+
+
+def reqs(headers):
+    yield 'wsgi', falcon.Request(testing.create_environ(headers=headers))
+    yield 'asgi', falcon.asgi.Request(testing.create_scope(headers=headers), None)
+
+
+def attempt(f):
+    try:
+        return ('ok', f())
+    except falcon.HTTPBadRequest as e:
+        return ('400', type(e).__name__)
+    except Exception as e:
+        return ('other', type(e).__name__)
+
+
+def mutate(sv):
+    if not sv:
+        return rnd.choice('=-,;"[]: x1')
+    i = rnd.randrange(len(sv))
+    k = rnd.randrange(4)
+    c = rnd.choice('=-,;"[]:_ \tW/*ax09')
+    return [sv[:i] + sv[i + 1:], sv[:i] + c + sv[i:], sv[:i] + c + sv[i + 1:], sv[:i] + sv[i:] * 2][k]
+
+
+# --- Range (RFC 9110 14.1.1: ranges-specifier = range-unit "=" range-set; int-range = first-pos "-" [last-pos]; suffix-range = "-" suffix-length)
+def ref_range(value):
+    m = re.fullmatch(r'([!#$%&\'*+\-.^_`|~0-9A-Za-z]+)=([0-9]*)-([0-9]*)', value)
+    if not m:
+        return None
+    unit, a, b = m.groups()
+    if a and b:
+        return (unit, (int(a), int(b))) if int(a) <= int(b) else None
+    if a:
+        return unit, (int(a), -1)
+    if b:
+        return (unit, (-int(b), -1)) if int(b) > 0 else None
+    return None
+
+
+for _ in range(n):
+    a, b = rnd.choice(['', str(rnd.randrange(0, 10 ** rnd.randrange(1, 12)))]), rnd.choice(['', str(rnd.randrange(0, 10 ** rnd.randrange(1, 12)))])
+    value = rnd.choice(['bytes', 'items', 'b']) + '=' + a + '-' + b
+    if rnd.random() < 0.5:
+        value = mutate(value)
+    want = ref_range(value)
+    for kind, req in reqs({'Range': value}):
+        got, unit = attempt(lambda: req.range), attempt(lambda: req.range_unit)
+        if want is not None:
+            record('range: valid value read as the RFC 9110 reader reads it', got == ('ok', want[1]) and unit == ('ok', want[0]), [kind, value, got, unit])
+        else:
+            f = got[1] if got[0] == 'ok' and got[1] else None
+            wf = f is not None and ((0 <= f[0] <= f[1]) or (f[0] >= 0 and f[1] == -1) or (f[0] < 0 and f[1] == -1))
+            record('range: invalid value is a 400 or a well-formed lenient reading', got[0] == '400' or wf, [kind, value, got])
+
+# --- HTTP-date (RFC 9110 5.6.7 IMF-fixdate) and write-then-read
+DAYS, MONTHS = ['Mon', 'Tue', 'Wed', 'Thu', 'Fri', 'Sat', 'Sun'], ['Jan', 'Feb', 'Mar', 'Apr', 'May', 'Jun', 'Jul', 'Aug', 'Sep', 'Oct', 'Nov', 'Dec']
+
+
+def ref_date(value):
+    m = re.fullmatch(r'(Mon|Tue|Wed|Thu|Fri|Sat|Sun), (\d\d) (\w{3}) (\d{4}) (\d\d):(\d\d):(\d\d) GMT', value)
+    if not m or m.group(3) not in MONTHS:
+        return None
+    try:
+        dt = datetime.datetime(int(m.group(4)), MONTHS.index(m.group(3)) + 1, int(m.group(2)), int(m.group(5)), int(m.group(6)), int(m.group(7)), tzinfo=datetime.timezone.utc)
+    except ValueError:
+        return None
+    return dt if DAYS[dt.weekday()] == m.group(1) else None
+
+
+for _ in range(n):
+    dt = datetime.datetime(1970, 1, 1, tzinfo=datetime.timezone.utc) + datetime.timedelta(seconds=rnd.randrange(0, 4102444800))
+    value = '%s, %02d %s %04d %02d:%02d:%02d GMT' % (DAYS[dt.weekday()], dt.day, MONTHS[dt.month - 1], dt.year, dt.hour, dt.minute, dt.second)
+    record('date: dt_to_http writes the IMF-fixdate', dt_to_http(dt) == value, [str(dt), dt_to_http(dt)])
+    record('date: written date reads back to the same instant', http_date_to_dt(dt_to_http(dt)) == dt, [str(dt)])
+    if rnd.random() < 0.5:
+        value = mutate(value)
+    want = ref_date(value)
+    for kind, req in reqs({'Date': value, 'If-Modified-Since': value, 'If-Unmodified-Since': value}):
+        for attr in ('date', 'if_modified_since', 'if_unmodified_since'):
+            got = attempt(lambda: getattr(req, attr))
+            if want is not None:
+                record('date: valid IMF-fixdate read as the reference reads it', got == ('ok', want), [kind, attr, value, str(got)])
+            else:
+                record('date: invalid value is a 400 or a lenient datetime', got[0] == '400' or (got[0] == 'ok' and isinstance(got[1], datetime.datetime)), [kind, attr, value, str(got)])
+
+# --- entity tags (RFC 9110 8.8.3: entity-tag = [ "W/" ] DQUOTE *etagc DQUOTE; If-Match = "*" / #entity-tag)
+ETAGC = '!#$%&()*+-./0123456789:;<=>?@ABCXYZ[]^_`abcxyz{|}~'
+
+
+def ref_etags(value):
+    v = value.strip(' \t')
+    if v == '*':
+        return ['*']
+    out, pos = [], 0
+    while True:
+        m = re.compile(r'[ \t]*(W/)?"([\x21\x23-\x7e\x80-\xff]*)"[ \t]*').match(v, pos)
+        if not m:
+            return None
+        out.append((m.group(2), bool(m.group(1))))
+        pos = m.end()
+        if pos == len(v):
+            return out
+        if v[pos] != ',':
+            return None
+        pos += 1
+
+
+for _ in range(n):
+    tags = [(''.join(rnd.choice(ETAGC) for _ in range(rnd.randrange(0, 6))), rnd.random() < 0.4) for _ in range(rnd.randrange(1, 4))]
+    value = rnd.choice([', ', ',', ' , ']).join(('W/' if w else '') + '"' + t + '"' for t, w in tags)
+    if rnd.random() < 0.1:
+        value = '*'
+    for t, w in tags:
+        e = ETag(t)
+        e.is_weak = w
+        back = ETag.loads(e.dumps())
+        record('etag: dumps then loads gives the same tag', back == t and back.is_weak == w, [t, w, e.dumps()])
+    if rnd.random() < 0.4:
+        value = mutate(value)
+    want = ref_etags(value)
+    for kind, req in reqs({'If-Match': value, 'If-None-Match': value}):
+        for attr in ('if_match', 'if_none_match'):
+            got = attempt(lambda: getattr(req, attr))
+            if want is not None:
+                seen = None if got[0] != 'ok' or got[1] is None else [x if x == '*' and not isinstance(x, ETag) else (str(x), x.is_weak) for x in got[1]]
+                record('etag: valid list read as the RFC 9110 reader reads it', seen == want, [kind, attr, value, str(got)])
+            else:
+                record('etag: invalid value is a 400 or a lenient reading', got[0] in ('ok', '400'), [kind, attr, value, str(got)])
+
+# --- cookies (RFC 6265 4.2.1: cookie-string = cookie-pair *( ";" SP cookie-pair ))
+TOKEN = "!#$%&'*+-.^_`|~0123456789ABCXYZabcxyz"
+COOKIE_OCTET = "!#$%&'()*+-./0123456789:<=>?@ABC[]^_`abc{|}~"
+for _ in range(n):
+    pairs = [(''.join(rnd.choice(TOKEN) for _ in range(rnd.randrange(1, 4))), ''.join(rnd.choice(COOKIE_OCTET) for _ in range(rnd.randrange(0, 6)))) for _ in range(rnd.randrange(1, 5))]
+    value = '; '.join(k + '=' + val for k, val in pairs)
+    valid = True
+    if rnd.random() < 0.4:
+        value, valid = mutate(value), False
+    first, allv = {}, {}
+    for k, val in pairs:
+        first.setdefault(k, val)
+        allv.setdefault(k, []).append(val)
+    for kind, req in reqs({'Cookie': value}):
+        got = attempt(lambda: dict(req.cookies))
+        again = attempt(lambda: req.cookies is req.cookies)
+        if valid:
+            record('cookies: valid cookie-string read as the RFC 6265 reader reads it', got == ('ok', first) and all(req.get_cookie_values(k) == vs for k, vs in allv.items()), [kind, value, str(got)])
+        else:
+            record('cookies: invalid value is a 400 or a lenient mapping', got[0] in ('ok', '400'), [kind, value, str(got)])
+        record('cookies: repeated access returns the same object', again == ('ok', True) or got[0] != 'ok', [kind, value])
+
+# --- Forwarded (RFC 7239 4) and access_route
+def gen_node():
+    k = rnd.randrange(6)
+    name = [lambda: '.'.join(str(rnd.randrange(256)) for _ in range(4)), lambda: '[2001:db8:cafe::%x]' % rnd.randrange(65536), lambda: 'unknown', lambda: '_hidden%d' % rnd.randrange(9)][min(k, 3) if k < 4 else 0]()
+    port = rnd.choice(['', '', ':%d' % rnd.randrange(1, 65536), ':_obf%d' % rnd.randrange(9)])
+    return name, port
+
+
+def ref_unquote(sv):
+    return re.sub(r'\\(.)', r'\1', sv[1:-1]) if sv.startswith('"') else sv
+
+
+for _ in range(n):
+    elements, want, route, numeric = [], [], [], True
+    for _e in range(rnd.randrange(1, 4)):
+        el, rec = [], {'for': None, 'by': None, 'host': None, 'proto': None}
+        for key in rnd.sample(['for', 'by', 'host', 'proto'], rnd.randrange(1, 5)):
+            if key in ('for', 'by'):
+                name, port = gen_node()
+                raw = name + port
+                if key == 'for':
+                    route.append(name[1:-1] if name.startswith('[') else name)
+                    numeric = numeric and not port.startswith(':_')
+                val = '"' + raw + '"' if (':' in raw or '[' in raw or rnd.random() < 0.3) else raw
+            elif key == 'host':
+                raw = rnd.choice(['example.com', 'api.example.org:8443', '[2001:db8::1]'])
+                val = '"' + raw + '"' if (':' in raw or rnd.random() < 0.3) else raw
+            else:
+                raw = rnd.choice(['http', 'https', 'HTTPS'])
+                val = raw
+            rec[key] = raw.lower() if key == 'proto' else raw
+            el.append(rnd.choice([key, key.upper(), key.capitalize()]) + '=' + val)
+        elements.append(';'.join(el))
+        want.append((rec['for'], rec['by'], rec['host'], rec['proto']))
+    value = rnd.choice([', ', ',']).join(elements)
+    remote = '10.9.8.7'
+    for kind, req in [('wsgi', falcon.Request(testing.create_environ(headers={'Forwarded': value}, remote_addr=remote))),
+                      ('asgi', falcon.asgi.Request(testing.create_scope(headers={'Forwarded': value}, remote_addr=remote), None))]:
+        got = attempt(lambda: [(h.src, h.dest, h.host, h.scheme) for h in req.forwarded])
+        record('forwarded: valid header read as the RFC 7239 reader reads it', got == ('ok', want), [kind, value, str(got)])
+        ar = attempt(lambda: list(req.access_route))
+        name = 'access_route: nodenames of the "for" parameters then the remote address' + ('' if numeric else ' (obfuscated node-port: known finding)')
+        record(name, ar == ('ok', route + [remote]), [kind, value, str(ar)])
+    bad = mutate(value)
+    for kind, req in reqs({'Forwarded': bad}):
+        got = attempt(lambda: req.forwarded)
+        record('forwarded: a mutated header never raises from req.forwarded', got[0] == 'ok', [kind, bad, str(got)])
+
+# --- Host (RFC 9110 7.2, RFC 3986 3.2: host [ ":" port ])
+for _ in range(n):
+    name = rnd.choice(['example.com', 'a.b.example.org', 'localhost', '192.0.2.7', '[2001:db8::7]', '[::1]'])
+    port = rnd.choice([None, None, rnd.randrange(1, 65536), 80, 443])
+    value = name + ('' if port is None else ':%d' % port)
+    valid = True
+    if rnd.random() < 0.3:
+        value, valid = mutate(value), False
+    for scheme in ('http', 'https'):
+        dflt = 80 if scheme == 'http' else 443
+        for kind, req in [('wsgi', falcon.Request(testing.create_environ(host=value, scheme=scheme))),
+                          ('asgi', falcon.asgi.Request(testing.create_scope(host=value, scheme=scheme), None))]:
+            if kind == 'asgi' and req.get_header('Host') != value:
+                continue
+            if kind == 'wsgi':
+                req.env['HTTP_HOST'] = value
+            h, p, nl = attempt(lambda: req.host), attempt(lambda: req.port), attempt(lambda: req.netloc)
+            if valid:
+                wh = name[1:-1] if name.startswith('[') else name
+                record('host: valid authority read as the RFC 3986 reader reads it', h == ('ok', wh) and p == ('ok', dflt if port is None else port) and nl == ('ok', value), [kind, scheme, value, str(h), str(p), str(nl)])
+                sub = attempt(lambda: req.subdomain)
+                record('host: subdomain is the first label', sub == ('ok', wh.partition('.')[0] if '.' in wh else None), [kind, value, str(sub)])
+            else:
+                nn = re.fullmatch(r'[^:]*:(?![0-9]+$)[^:]*', value) if not value.startswith('[') else (']:' in value and not re.fullmatch(r'[0-9]+', value.rpartition(']:')[2]))
+                record('host: invalid value is a 400 or a lenient reading' + (' (non-numeric port: known finding)' if nn else ''), h[0] != 'other' and p[0] != 'other', [kind, scheme, value, str(h), str(p)])
+
+print(json.dumps({'cases': cases, 'fails': fails}))
+"""
+
+
+def bounded(tier, seed, overlay_dir):
+    """Differential check of the opaque parsers against a tiny independent RFC reader.  Bounded, labelled, never counted as proved."""
+    import json
+    import os
+    import subprocess
+
+    n = 400 if tier == 'quick' else 4000
+    env = dict(os.environ, PYTHONPATH=overlay_dir, PYTHONDONTWRITEBYTECODE='1')
+    try:
+        p = subprocess.run(['/venv/bin/python', '-c', _BOUNDED_SCRIPT, str(int(seed) & 0x7FFFFFFF), str(n)], env=env, capture_output=True, text=True, timeout=900, cwd='/tmp')
+        data = json.loads(p.stdout.strip().splitlines()[-1])
+    except Exception as e:  # noqa: BLE001
+        detail = (p.stderr[-800:] if 'p' in locals() else '') + repr(e)
+        return [{'name': 'C09 differential against an RFC reader', 'bound': 'n=%d per family' % n, 'cases': 0, 'failures': [{'obligation': 'bounded-run-completed', 'input': detail}]}]
+    out = []
+    for name, cnt in sorted(data['cases'].items()):
+        out.append({'name': 'C09 ' + name, 'bound': '%d generated header values per family (seed %s), ABNF-generated plus single-character mutations, WSGI and ASGI' % (n, seed),
+                    'cases': cnt, 'failures': [{'obligation': name, 'input': i} for i in data['fails'].get(name, [])]})
+    return out
+
+
+ASSUMPTIONS = [
+    'int(text) (Python library reference, base 10): 1*DIGIT is accepted with its decimal value; the empty text is rejected; an accepted text without "-" is never negative; '
+    'int("-" d) == -int(d) for 1*DIGIT d; an accepted text is a decimal literal (blanks, optional sign, digits with single underscores, blanks); rejection raises ValueError and nothing else. '
+    'Header values are latin-1 texts (PEP 3333 native strings; ASGI byte strings decoded as latin-1) -- Unicode decimal digits beyond latin-1 are outside the domain',
+    'PEP 3333: SERVER_NAME, SERVER_PORT (decimal digits) and wsgi.url_scheme ("http" or "https") are always in the environ; ASGI scope "scheme" is one of http/https/ws/wss when present, '
+    '"server" is None or a (host, port) pair, "client" is a (host, port) pair when present (scope["client"] = None is explored separately, see the findings)',
+    'opaque parsers are total or raise ValueError only: _parse_forwarded_header and _parse_cookie_header return a list / a dict of non-empty value lists and never raise; '
+    '_parse_etags returns a list or None and never raises; http_date_to_dt raises only ValueError (proved here relative to strptime raising only ValueError); '
+    'mediatypes.quality returns a float or raises ValueError (re, strptime, http.cookies._unquote: DESIGN.md C09 "Assumed")',
+    'str.lower / str.upper / str.strip are uninterpreted total functions str -> str (the specifications use the same functions); for ASCII input lower/upper return ASCII text of the same length; '
+    'in the case-insensitivity harness str.replace is an uninterpreted function too (only congruence is needed)',
+    'str.partition / find / rfind / split and slices at the found positions are encoded as word equations (s == head ++ sep ++ tail with sep not occurring earlier / later); '
+    'occurrences of "]:" , ":" , "=" , "-" , "," , "." never overlap themselves',
+    'bounded shapes: X-Forwarded-For with at most 3 comma-separated addresses; Forwarded with at most 2 elements, of which the second carries a bare node name '
+    '(the comprehension / loop body treats every piece alike); cookie jars with at most 2 names and 2 values',
+    'the application passes ASCII header names to get_header (RFC 9110 field names are tokens); the ASGI name cache holds name -> name.lower().encode("latin1") (invariant checked at its only writer)',
+]
+NOT_DECIDED = [
+    'the grammars themselves: _parse_forwarded_header (regex scanner), _parse_cookie_header, _parse_etags / ETag.loads, strptime formats, mediatypes.quality are opaque here; '
+    'agreement with an independent RFC reader is only checked by the bounded differential `bounded()` (labelled, never counted as proved), as are the date and entity-tag write-then-read round trips',
+    'X-Forwarded-For with more than 3 addresses and Forwarded with more than 2 elements (symbolic piece counts need a sequence invariant over the list comprehension)',
+    'ASGI access_route when scope["client"] carries an empty host string: the route is then empty and remote_addr raises IndexError (environment input, not a header; seen while reading)',
+    'Request.headers / headers_lower / get_param* / client_prefers / user_agent, auth, expect, if_range, referer (_header_property one-liners) are not part of the accessor list of C09',
+    'parse_host on its own (functional specification for every shape): decided where the accessors use it; C10 owns the function',
+]
+TRUSTED = [
+    'int model, latin-1 codec model, word-equation hooks (_occurrence, _hook_rfind, _hook_slice, _split_model) in contracts/C09_request_headers.py',
+    'stand-ins Parser / Opaque / NaiveDT / Strptime / NameCache and the `patched` rebinding of module-level names (falcon.request._parse_forwarded_header, '
+    'falcon.request_helpers._parse_etags / _parse_cookie_header, falcon.util.http_date_to_dt, falcon.util.misc._strptime, falcon.util.mediatypes.quality)',
+    'spec-side decomposition of a host / node value (port_text, spec_node_host, spec_host_port) reads the value by first / last occurrence of ":" and "]:" (RFC 3986 3.2, RFC 7239 6)',
+]
 KILLS = [
     # a removed try/except around int()
     ('falcon/request.py', "        try:\n            value_as_int = int(value)\n        except ValueError:\n            msg = 'The value of the header must be a number.'\n            raise errors.HTTPInvalidHeader(msg, 'Content-Length')\n",
